@@ -64,6 +64,7 @@ class Machine:
         # addresses of dead objects, by kind: new ones are made to lie there (world.new_at)
         self.graves: Dict[str, Any] = {"fn": set(), "env": set()}
         self.morgue: List[Any] = []  # roots of documents that died (see op_forget_doc)
+        self.families: Dict[Any, Any] = {}  # base classes of environment families (world.make_env)
         self.pinned_docs: set = set()  # documents other documents share objects with
         self._tl = threading.local()
         world.REENTRY_HOOK = self._reentry
@@ -133,10 +134,20 @@ class Machine:
             # any node of the full result may come first in nondeterministic mode
             full = golden.ask({**gspec, "entry": "finditer"})
             same = obs["end"] == gold["end"] and len(obs["nodes"]) == len(gold["nodes"]) and all(n in full["nodes"] for n in obs["nodes"])
+        elif nondet and gold["end"] != "stop":
+            # the solitary (deterministic) run raised: so must this one; which nodes either of them
+            # had delivered by then is a matter of visiting order and of when the limit is checked
+            same = obs["end"] == gold["end"]
         elif nondet:
             same = Counter(map(repr, obs["nodes"])) == Counter(map(repr, gold["nodes"])) and obs["end"] == gold["end"]
         else:
             same = obs["nodes"] == gold["nodes"] and obs["end"] == gold["end"]
+        if not same and nondet and obs["end"] not in ("stop", gold["end"]):
+            # find_one() and friends stop early in the deterministic solitary run; a nondeterministic
+            # evaluation may meet the limit (anywhere in the value) before it delivers its first
+            # node.  Raising what the evaluation AS A WHOLE raises is not interference.
+            full = golden.ask({**gspec, "entry": "finditer"})
+            same = full["end"] == obs["end"]
         if not same:
             self._violate(
                 "differs-from-solitary",
@@ -305,7 +316,7 @@ class Machine:
         spec = copy.deepcopy(op["spec"])
         spec.setdefault("funcs", [])
         before = (self.graves.get("reused_env", 0), self.graves.get("reused_fn", 0))
-        env = world.make_env(spec, self.graves)
+        env = world.make_env(spec, self.graves, self.families)
         if self.graves.get("reused_env", 0) != before[0]:
             self.stats["probe_environment_allocated_where_a_dead_one_was"] += 1
         if self.graves.get("reused_fn", 0) != before[1]:
@@ -495,7 +506,9 @@ class Machine:
             return
         gold = golden.ask(rec["spec"])
         got, want = rec["got"], gold["nodes"]
-        if rec["nondet"]:
+        if rec["nondet"] and gold["end"] != "stop":
+            ok = True  # (the solitary run raises: only the end is judged, see _compare)
+        elif rec["nondet"]:
             ok = not (Counter(map(repr, got)) - Counter(map(repr, want)))
         else:
             ok = got == want[: len(got)]
